@@ -951,17 +951,22 @@ theorem external_recsOf_batch (rs : List Rec) (rest : List Seg) :
     external (recsOf (Seg.batch rs :: rest)) = external rs ++ external (recsOf rest) := by
   simp [recsOf, external_append]
 
+theorem external_recsOf_batchNoDump (rs : List Rec) (rest : List Seg) :
+    external (recsOf (Seg.batchNoDump rs :: rest)) = external rs ++ external (recsOf rest) := by
+  simp [recsOf, external_append]
+
 theorem runSegs_totals {τ : Type} (N : Normaliser τ) (T0 : τ) (segs : List Seg) (s : St τ) (prev : List Rec)
-    (ms : List String) (hc : ∀ m ∈ ms, cleanMethod m = true) (hin : MethodsIn ms s.agg)
+    (f : Bool) (ms : List String) (hc : ∀ m ∈ ms, cleanMethod m = true) (hin : MethodsIn ms s.agg)
     (hrecs : ∀ r ∈ external (recsOf segs), r.method ∈ ms)
-    (ht : Totals s.agg prev) (hn : NodupKeys s.agg) (hr : FileRel s) :
+    (ht : Totals s.agg prev) (hn : NodupKeys s.agg) (hr : f = true → FileRel s)
+    (hrf : RestartsFresh f segs) :
     Totals (runSegs N T0 s segs).agg (prev ++ external (recsOf segs)) ∧
-    Totals (restore (runSegs N T0 s segs).file) (prev ++ external (recsOf segs)) := by
-  induction segs generalizing s prev with
+    (freshAfter f segs = true → Totals (restore (runSegs N T0 s segs).file) (prev ++ external (recsOf segs))) := by
+  induction segs generalizing s prev f with
   | nil =>
-    simp only [runSegs, recsOf, external, List.filter_nil, List.append_nil]
-    refine ⟨ht, ?_⟩
-    rcases hr with hr | hr
+    simp only [runSegs, recsOf, external, List.filter_nil, List.append_nil, freshAfter]
+    refine ⟨ht, fun hf => ?_⟩
+    rcases hr hf with hr | hr
     · rw [hr, restore_persist_floor _ hn (keysOK_of_methodsIn ms _ hin hc)]; exact totals_floor _ _ ht
     · rw [← hr]; exact ht
   | cons seg rest ih =>
@@ -971,7 +976,8 @@ theorem runSegs_totals {τ : Type} (N : Normaliser τ) (T0 : τ) (segs : List Se
         rw [external_recsOf_batch]; exact List.mem_append_left _ hr')
       have hrest : ∀ r ∈ external (recsOf rest), r.method ∈ ms := fun r hr' => hrecs r (by
         rw [external_recsOf_batch]; exact List.mem_append_right _ hr')
-      simp only [runSegs, external_recsOf_batch, ← List.append_assoc]
+      simp only [runSegs, external_recsOf_batch, ← List.append_assoc, freshAfter]
+      simp only [RestartsFresh] at hrf
       have hstep := totals_step N s.tree s.agg rs prev ht
       have hnod := nodupKeys_step N s.tree s.agg rs hn
       have hmeth := methodsIn_step N s.tree s.agg rs ms hin hrs
@@ -980,21 +986,50 @@ theorem runSegs_totals {τ : Type} (N : Normaliser τ) (T0 : τ) (segs : List Se
         have : rs = [] := by cases rs <;> simp_all
         subst this
         rw [hs]
-        simpa [external] using ih s prev hin hrest ht hn hr
+        simp only [List.isEmpty_nil, Bool.not_true, Bool.or_false] at hrf ⊢
+        simpa [external] using ih s prev f hin hrest ht hn hr hrf
       · have hs : stepS N s rs = { tree := (step N s.tree s.agg rs).1, agg := (step N s.tree s.agg rs).2,
                                     file := persist (step N s.tree s.agg rs).2 } := by
           simp [stepS, he]
+        have hb : (f || !rs.isEmpty) = true := by simp [he]
         rw [hs]
-        exact ih _ _ hmeth hrest hstep hnod (Or.inl rfl)
+        rw [hb] at hrf ⊢
+        exact ih _ _ true hmeth hrest hstep hnod (fun _ => Or.inl rfl) hrf
+    | batchNoDump rs =>
+      have hrs : ∀ r ∈ external rs, r.method ∈ ms := fun r hr' => hrecs r (by
+        rw [external_recsOf_batchNoDump]; exact List.mem_append_left _ hr')
+      have hrest : ∀ r ∈ external (recsOf rest), r.method ∈ ms := fun r hr' => hrecs r (by
+        rw [external_recsOf_batchNoDump]; exact List.mem_append_right _ hr')
+      simp only [runSegs, external_recsOf_batchNoDump, ← List.append_assoc, freshAfter]
+      simp only [RestartsFresh] at hrf
+      have hstep := totals_step N s.tree s.agg rs prev ht
+      have hnod := nodupKeys_step N s.tree s.agg rs hn
+      have hmeth := methodsIn_step N s.tree s.agg rs ms hin hrs
+      by_cases he : rs.isEmpty = true
+      · have hs : stepNoDump N s rs = s := by simp [stepNoDump, he]
+        have : rs = [] := by cases rs <;> simp_all
+        subst this
+        rw [hs]
+        simp only [List.isEmpty_nil, Bool.and_true] at hrf ⊢
+        simpa [external] using ih s prev f hin hrest ht hn hr hrf
+      · have hs : stepNoDump N s rs = { tree := (step N s.tree s.agg rs).1, agg := (step N s.tree s.agg rs).2,
+                                         file := s.file } := by
+          simp [stepNoDump, he]
+        have hb : (f && rs.isEmpty) = false := by simp [he]
+        rw [hs]
+        rw [hb] at hrf ⊢
+        exact ih _ _ false hmeth hrest hstep hnod (fun h => by cases h) hrf
     | restart =>
-      simp only [runSegs, recsOf] at hrecs ⊢
-      rcases hr with hr | hr
+      simp only [RestartsFresh] at hrf
+      obtain ⟨hf, hrf'⟩ := hrf
+      simp only [runSegs, recsOf, freshAfter] at hrecs ⊢
+      rcases hr hf with hr | hr
       · have e : restore s.file = floorAgg s.agg := by
           rw [hr]; exact restore_persist_floor _ hn (keysOK_of_methodsIn ms _ hin hc)
-        refine ih _ prev ?_ hrecs ?_ (nodupKeys_restore _) (Or.inr rfl)
+        refine ih _ prev true ?_ hrecs ?_ (nodupKeys_restore _) (fun _ => Or.inr rfl) hrf'
         · simp only [e]; exact methodsIn_floorAgg ms _ hin
         · simp only [e]; exact totals_floor _ _ ht
-      · refine ih _ prev ?_ hrecs ?_ (nodupKeys_restore _) (Or.inr rfl)
+      · refine ih _ prev true ?_ hrecs ?_ (nodupKeys_restore _) (fun _ => Or.inr rfl) hrf'
         · simp only [← hr]; exact hin
         · simp only [← hr]; exact ht
 
@@ -1092,6 +1127,21 @@ theorem stepS_file {τ : Type} (N : Normaliser τ) (s : St τ) (b : List Rec) :
   unfold stepS
   by_cases he : b.isEmpty = true <;> simp [he]
 
+theorem stepNoDump_tree {τ : Type} (N : Normaliser τ) (s : St τ) (b : List Rec) :
+    (stepNoDump N s b).tree = (stepS N s b).tree := by
+  unfold stepNoDump stepS
+  by_cases he : b.isEmpty = true <;> simp [he]
+
+theorem stepNoDump_agg {τ : Type} (N : Normaliser τ) (s : St τ) (b : List Rec) :
+    (stepNoDump N s b).agg = (stepS N s b).agg := by
+  unfold stepNoDump stepS
+  by_cases he : b.isEmpty = true <;> simp [he]
+
+theorem stepNoDump_file {τ : Type} (N : Normaliser τ) (s : St τ) (b : List Rec) :
+    (stepNoDump N s b).file = s.file := by
+  unfold stepNoDump
+  by_cases he : b.isEmpty = true <;> simp [he]
+
 theorem runSegs_aggOk {τ : Type} (N : Normaliser τ) (T0 : τ) (segs : List Seg) (s : St τ)
     (h : AggOk s.agg) (hf : AggOk (restore s.file)) :
     AggOk (runSegs N T0 s segs).agg ∧ AggOk (restore (runSegs N T0 s segs).file) := by
@@ -1106,6 +1156,11 @@ theorem runSegs_aggOk {τ : Type} (N : Normaliser τ) (T0 : τ) (segs : List Seg
       rcases stepS_file N s rs with e | e
       · rw [e]; exact hf
       · rw [e]; exact aggOk_restore_persist _ ha
+    | batchNoDump rs =>
+      simp only [runSegs]
+      have ha : AggOk (stepNoDump N s rs).agg := by
+        rw [stepNoDump_agg, stepS_agg]; exact aggOk_step N _ _ _ h
+      exact ih _ ha (by rw [stepNoDump_file]; exact hf)
     | restart =>
       simp only [runSegs]
       exact ih _ hf hf
@@ -1363,9 +1418,92 @@ theorem runSegs_nodup {τ : Type} (N : Normaliser τ) (T0 : τ) (segs : List Seg
     | batch rs =>
       simp only [runSegs]
       exact ih _ (by rw [stepS_agg]; exact nodupKeys_step N _ _ _ h)
+    | batchNoDump rs =>
+      simp only [runSegs]
+      exact ih _ (by rw [stepNoDump_agg, stepS_agg]; exact nodupKeys_step N _ _ _ h)
     | restart =>
       simp only [runSegs]
       exact ih _ (nodupKeys_restore _)
 
+/-- Which flushes fail to persist does not influence the tree or the in-memory aggregation (restart-free runs). -/
+theorem runSegs_clearFaults {τ : Type} (N : Normaliser τ) (T0 : τ) (segs : List Seg) (s s' : St τ)
+    (hn : noRestart segs = true) (ht : s.tree = s'.tree) (ha : s.agg = s'.agg) :
+    (runSegs N T0 s segs).tree = (runSegs N T0 s' (clearFaults segs)).tree ∧
+    (runSegs N T0 s segs).agg = (runSegs N T0 s' (clearFaults segs)).agg := by
+  induction segs generalizing s s' with
+  | nil => exact ⟨ht, ha⟩
+  | cons seg rest ih =>
+    cases seg with
+    | batch rs =>
+      simp only [runSegs, clearFaults]
+      refine ih _ _ (by simpa [noRestart] using hn) ?_ ?_
+      · rw [stepS_tree, stepS_tree, ht, ha]
+      · rw [stepS_agg, stepS_agg, ht, ha]
+    | batchNoDump rs =>
+      simp only [runSegs, clearFaults]
+      refine ih _ _ (by simpa [noRestart] using hn) ?_ ?_
+      · rw [stepNoDump_tree, stepS_tree, stepS_tree, ht, ha]
+      · rw [stepNoDump_agg, stepS_agg, stepS_agg, ht, ha]
+    | restart => simp [noRestart] at hn
+
+theorem clearFaults_segOf (fs : List (List Rec × Bool)) :
+    clearFaults (fs.map segOf) = (fs.map Prod.fst).map Seg.batch := by
+  induction fs with
+  | nil => rfl
+  | cons b rest ih =>
+    obtain ⟨rs, f⟩ := b
+    cases f <;> simp [segOf, clearFaults, ih]
+
+theorem noRestart_segOf (fs : List (List Rec × Bool)) : noRestart (fs.map segOf) = true := by
+  induction fs with
+  | nil => rfl
+  | cons b rest ih =>
+    obtain ⟨rs, f⟩ := b
+    cases f <;> simp [segOf, noRestart, ih]
+
+/-- restart-free run: the file is the dump of the aggregation whenever the last non-empty flush succeeded -/
+theorem runSegs_noRestart_file {τ : Type} (N : Normaliser τ) (T0 : τ) (segs : List Seg) (s : St τ) (f : Bool)
+    (hn : noRestart segs = true) (hf : f = true → s.file = persist s.agg) (hend : freshAfter f segs = true) :
+    (runSegs N T0 s segs).file = persist (runSegs N T0 s segs).agg := by
+  induction segs generalizing s f with
+  | nil => exact hf (by simpa [freshAfter] using hend)
+  | cons seg rest ih =>
+    cases seg with
+    | batch rs =>
+      simp only [runSegs, freshAfter] at hend ⊢
+      refine ih _ _ (by simpa [noRestart] using hn) ?_ hend
+      intro hf'
+      unfold stepS
+      by_cases he : rs.isEmpty = true
+      · simp only [he, if_true]; exact hf (by simpa [he] using hf')
+      · simp [he]
+    | batchNoDump rs =>
+      simp only [runSegs, freshAfter] at hend ⊢
+      refine ih _ _ (by simpa [noRestart] using hn) ?_ hend
+      intro hf'
+      simp only [Bool.and_eq_true] at hf'
+      have he : rs.isEmpty = true := hf'.2
+      unfold stepNoDump
+      simp only [he, if_true]; exact hf hf'.1
+    | restart => simp [noRestart] at hn
+
+
+
+theorem recsOf_segOf (fs : List (List Rec × Bool)) : recsOf (fs.map segOf) = (fs.map Prod.fst).flatten := by
+  induction fs with
+  | nil => rfl
+  | cons b rest ih =>
+    obtain ⟨rs, f⟩ := b
+    cases f <;> simp [segOf, recsOf, ih]
+
+theorem restartsFresh_of_noRestart (segs : List Seg) (f : Bool) (hn : noRestart segs = true) :
+    RestartsFresh f segs := by
+  induction segs generalizing f with
+  | nil => trivial
+  | cons seg rest ih =>
+    cases seg with
+    | batch rs => simp only [RestartsFresh]; exact ih _ (by simpa [noRestart] using hn)
+    | batchNoDump rs => simp only [RestartsFresh]; exact ih _ (by simpa [noRestart] using hn)
+    | restart => simp [noRestart] at hn
 
 end LunarVerif.C15
